@@ -299,6 +299,24 @@ func runC17(a vh.Args, o *vh.Oracle, r *vh.Result) error {
 			}
 		}
 	}
+	// zero-tail family: a file that is SHORTER than the index where every missing byte is zero in the
+	// blob (sparse images) -- a reader that pads short reads with zeros would accept it
+	for k := 0; k < 6; k++ {
+		head := rng.Bytes(rng.Intn(300))
+		if k == 0 {
+			head = nil
+		}
+		blob := append(append([]byte{}, head...), make([]byte, 64+rng.Intn(600))...)
+		sizes := randomSizes(rng, len(blob), 1+rng.Intn(80))
+		for _, cut := range []int{1, 1 + rng.Intn(len(blob)-len(head)), len(blob) - len(head)} {
+			for _, n := range []int{1, 1 + rng.Intn(64)} {
+				c := &c17Case{BlobHex: vh.Hex(blob), Sizes: sizes, N: n, Mut: fmt.Sprintf("truncate-zero-tail@%d", cut), FileHex: vh.Hex(blob[:len(blob)-cut]), Digest: []string{"sha256", "sha512-256"}[k%2]}
+				if err := c17Check(a, o, r, c, true); err != nil {
+					return err
+				}
+			}
+		}
+	}
 	return c17CLI(a, r, rng)
 }
 
